@@ -306,8 +306,50 @@ def on_extras(p, r, exc, acc):
     acc.sample(dict(flags=r["f"], output=r["got"]))
 
 
+# ------------------------------------------------------------------ inheritance through an expression: mako.ext.autohandler
+ORDERS = [[0], [1], [2], [0, 1], [1, 0], [1, 2], [2, 1], [0, 2], [2, 0], [2, 1, 0], [1, 2, 1]]
+
+
+def h_auto(p):
+    cfg = dict(autohandlers=[bool(p.choose(2, "autohandler_in_level_%d" % k)) for k in range(3)],
+               order=ORDERS[p.choose(len(ORDERS), "request_order")], filesystem_checks=bool(p.choose(2, "filesystem_checks")))
+    return dict(cfg=cfg)
+
+
+def on_auto(p, r, exc, acc):
+    if exc is not None:
+        acc.candidate(kind="harness-exception", input=None, detail=repr(exc)[:200])
+        return
+    from symx import realproc
+    res = realproc.call("autohandler_case", r["cfg"])
+    acc.replayed += 1
+    acc.tags["ran"] += 1
+    bad = [x for x in res if x[1] != x[2]]
+    acc.vcs += len(res)
+    if bad:
+        acc.candidate(kind="autohandler-chain", input=dict(autohandler=r["cfg"]), detail="%s rendered %r, the chain of autohandlers gives %r" % tuple(bad[0]))
+    elif len(res) > 1 and any(r["cfg"]["autohandlers"]):
+        acc.good("autohandler-chain", dict(autohandler=r["cfg"]))
+    acc.sample(dict(r["cfg"], outputs=[x[1] for x in res]))
+
+
+
 def make_replay(c):
     i = c["input"] or {}
+    if "autohandler" in i:
+        body = """
+sys.path.insert(0, "/verif")
+CASE = __CASE__
+from props.realops import autohandler_case
+print("autohandler files in /, /a, /a/b:", CASE["autohandler"]["autohandlers"], " filesystem_checks:", CASE["autohandler"]["filesystem_checks"])
+bad = None
+for uri, got, want in autohandler_case(CASE["autohandler"]):
+    print(uri, "->", got, "  expected", want)
+    if got != want: bad = "a page does not inherit from the chain of autohandlers above it"
+print("VIOLATED: " + bad if bad else "HOLDS")
+sys.exit(1 if bad else 0)
+""".replace("__CASE__", repr(i))
+        return (c["kind"], body, repr(sorted(i["autohandler"].items(), key=str)))
     if "wrappers" in i or "extras" in i:
         body = """
 sys.path.insert(0, "/verif")
@@ -375,6 +417,9 @@ def run(check, tier):
         "each template's body prints self.d, local.d, parent.d, next.d and self.attr.a (missing members print MISSING), the block at a "
         "marked position, and chains with next.body(); the expected text is computed from the statement's rules",
         "`next` in the most-derived template and `parent` in the base-most are not set by Mako and are not probed",
+        "inheritance through an expression is also exercised with mako.ext.autohandler (real files, real child process): autohandler files in any "
+        "subset of /, /a, /a/b (each inheriting through autohandler() itself), pages requested in solver-chosen orders through one lookup, "
+        "filesystem_checks on / off (off = the function memoises in lookup._uri_cache)",
         "outputs are concrete per flag combination; the explorer exhausts all combinations within the bound")
     check.assume("placement: a named block under up to %d nested wrappers chosen from %r, optionally with a second declaration of its name "
                  "(sibling block, def of that name, block inside another block): compiled by the real Template; rejected exactly when a def / "
@@ -391,6 +436,8 @@ def run(check, tier):
     D = {"quick": 2, "thorough": 3}[tier]
     jobs.append(("C06-placement", h_placement(D), on_placement, "named block under up to %d wrappers, with and without a duplicate declaration" % D,
                  dict(depth=D, wrappers=list(WRAP)), ("ran",)))
+    jobs.append(("C06-autohandler", h_auto, on_auto, "inheritance through an expression: mako.ext.autohandler over three directory levels, request orders, "
+                 "filesystem_checks on / off", dict(levels=3, orders=len(ORDERS)), ("ran",)))
     jobs.append(("C06-extras", h_extras, on_extras, "include inside an inheritance chain; body() arguments", dict(flags=7), ("ran",)))
     for j in jobs:
         driver.register(j[0], j[1], j[2])
